@@ -895,6 +895,7 @@ def run(ctx):
     ]
     ctx.cov["trusted_base"] += ["harness possible-world enumerator (harness/props/C21.py class Sem)"]
     ctx.prove("C21/Props.v")
+    ctx.prove("C21/PropsExtra.v")
     with open(os.path.join(vf.THEORIES, "C21", "Findings.v")) as f:
         rc, out = ctx.coq_run(f.read(), "findings")
     ctx.cov["findings_witnesses_compile"] = (rc == 0)
